@@ -16,8 +16,9 @@ def sh(cmd, cwd=None, timeout=3000):
 
 def main():
     pid, k = sys.argv[1], sys.argv[2]
-    wt = "/tmp/mut/" + pid
-    out = "/tmp/mut/out/" + pid
+    root = os.environ.get("MUT_ROOT", "/tmp/mut")
+    wt = root + "/" + pid
+    out = root + "/out/" + pid
     meta = json.load(open("%s/meta%s.json" % (out, k)))
     patch = "%s/patch%s.diff" % (out, k)
     demo = meta["demo_cmd"]
@@ -30,6 +31,9 @@ def main():
     rc0, o0 = sh(demo)
     res["demo_without_patch_rc"] = rc0
     rc, o = sh("git apply " + patch, cwd=wt)
+    if rc != 0:
+        rc, o = sh("git apply -3 " + patch + " && git reset -q", cwd=wt)      # the tree moved on since the patch was written
+        res["applied_3way"] = rc == 0
     res["patch_applies"] = rc == 0
     if rc == 0:
         rct, ot = sh("cargo test --workspace --no-fail-fast --offline 2>&1", cwd=wt)
